@@ -64,6 +64,10 @@ def gen_block(rng: random.Random, depth: int, scopes: list[str], budget: list[in
         r = rng.random()
         if r < 0.30:
             out.append(["sleep", rng.choice([0, 0.5, 0.5, 1.0, 1.5, 2.0, 3.0])])
+        elif r < 0.34:
+            # a real blocking operation of the asyncio back-end: WriteFlowControl.drain() on a paused transport whose
+            # resume_writing() notification is scripted d seconds later (d on the same grid as the deadlines)
+            out.append(["drain", rng.choice([0.5, 0.5, 1.0, 1.5, 2.0, 3.0])])
         elif r < 0.38:
             out.append(["yield"])
         elif r < 0.42:
@@ -118,15 +122,32 @@ class Runner:
         self.loop, self.backend, self.tr = loop, backend, trace
         self.scopes: dict[str, Any] = trace.scopes
 
+    async def _drain(self, d: float) -> None:
+        from easynetwork.lowlevel.api_async.backend._asyncio._flow_control import WriteFlowControl
+
+        class _T:
+            def is_closing(self) -> bool:
+                return False
+
+        wf = WriteFlowControl(_T(), self.loop)  # type: ignore[arg-type]
+        wf.pause_writing()
+        h = self.loop.call_at(self.loop.time() + d, wf.resume_writing)
+        try:
+            await wf.drain()
+        finally:
+            h.cancel()
+
     async def block(self, body: list, path: str, enclosing: tuple, shielded: bool, task_tag: str) -> None:
         for idx, st in enumerate(body):
             sid = f"{path}.{idx}"
             op = st[0]
-            if op in ("sleep", "yield", "shyield"):
-                self.tr.add("start", id=sid, op=op, d=st[1] if op == "sleep" else 0, enc=enclosing, sh=shielded or op == "shyield", task=task_tag)
+            if op in ("sleep", "yield", "shyield", "drain"):
+                self.tr.add("start", id=sid, op=op, d=st[1] if op in ("sleep", "drain") else 0, enc=enclosing, sh=shielded or op == "shyield", task=task_tag)
                 try:
                     if op == "sleep":
                         await self.backend.sleep(st[1])
+                    elif op == "drain":
+                        await self._drain(st[1])
                     elif op == "yield":
                         await self.backend.coro_yield()
                     else:
@@ -346,6 +367,13 @@ def check(prog: list, ext: float | None, res: dict, ctx=None) -> list[tuple[str,
             continue
         if e is None or e["out"] != "ok":
             continue
+        # I1s (strict, order-based): a checkpoint statement never ends normally in a task step that begins after cancel() was
+        # called on an enclosing scope: asyncio throws CancelledError into that step whatever the state of the awaited future
+        # (cancel_called() ground truth at the end event; a cancel issued by this very task is delivered at the next statement)
+        late = [n for n in s["enc"] if n in e["cc"] and n not in s["cc"] and scope_info.get(n) is not None]
+        if late and s["op"] in ("sleep", "drain") and s["d"] > 0:
+            cnt("i1s_strict_checks")
+            out.append(("I1s-completed-in-a-step-after-cancel", f"statement {sid} ({s['op']} {s['d']}) ended normally at t={e['t']} although scope {late[0]} had been cancelled while it was waiting (the operation swallowed the cancellation)"))
         # I1: ended normally although an enclosing scope was cancelled before it started / well before it ended
         for name in s["enc"]:
             si = scope_info.get(name)
